@@ -77,6 +77,8 @@ type hsCase struct {
 	LongChain bool
 	Mode      string // "", "0rtt", "0rtt-reject"
 	TwoVers   bool   // client offers two versions (both spoken by the server)
+	EarlyVar  int    // 0-RTT modes: 0 one stream written and closed early; 1 two streams, the second left open until the
+	                 // handshake is done; 2 like 0, and after a rejection the application re-sends on NextConnection
 	EchoDCID  bool   // the server uses the client's original DCID as its own source connection ID (legal)
 	Faults    []fault
 	Inj       *hsInj
@@ -92,7 +94,7 @@ func (c hsCase) String() string {
 	if c.Inj != nil {
 		inj = fmt.Sprintf("%s@%s#%d", injNames[c.Inj.Kind], []string{"c>s", "s>c"}[c.Inj.Dir], c.Inj.Idx)
 	}
-	return fmt.Sprintf("client=%s retry=%v vn=%v longchain=%v twovers=%v echo=%v mode=%q faults=[%s] inject=%s seed=%d", c.Client, c.Retry, c.VN, c.LongChain, c.TwoVers, c.EchoDCID, c.Mode, strings.Join(fs, " "), inj, c.Seed)
+	return fmt.Sprintf("client=%s retry=%v vn=%v longchain=%v twovers=%v echo=%v mode=%q/%d faults=[%s] inject=%s seed=%d", c.Client, c.Retry, c.VN, c.LongChain, c.TwoVers, c.EchoDCID, c.Mode, c.EarlyVar, strings.Join(fs, " "), inj, c.Seed)
 }
 
 // ---- minimal wire reader of the on-path attacker ----
@@ -180,6 +182,7 @@ type hsAttacker struct {
 	armed            bool
 	vnCorrupted      bool
 	genuineRetryDelivered bool
+	genuineOnItsWay       bool
 	injectedAfterRetry    bool
 	injected         bool
 	injectedInert    bool // ... at a point where the client had already been sent a genuine packet
@@ -218,7 +221,7 @@ func (a *hsAttacker) observe(dir, idx int, data []byte) {
 		if bytes.Equal(h.scid, a.cliSCID) && h.version == a.cliVer {
 			a.curDCID = h.dcid
 		}
-		if !a.genuineDelivered && !bytes.Equal(h.dcid, a.attSCID) && !a.srvSCIDs[string(h.dcid)] {
+		if !a.genuineOnItsWay && !bytes.Equal(h.dcid, a.attSCID) && !a.srvSCIDs[string(h.dcid)] {
 			// before any genuine server packet is under way the DCID can only be the original one or a Retry's SCID
 			a.dcidsPerAttempt[key][string(h.dcid)] = true
 		}
@@ -242,8 +245,14 @@ func (a *hsAttacker) noteGenuine(dir, idx int, data []byte, act string) {
 	if ok && h.typ == -1 && (strings.Contains(act, "flip") || strings.Contains(act, "trunc")) {
 		a.vnCorrupted = true // nothing authenticates a Version Negotiation packet: corrupting one is an attack of its own
 	}
+	if ok && h.typ == 0 && strings.Contains(act, "delay") {
+		a.genuineOnItsWay = true // will arrive: from then on the client may use server-issued connection IDs
+	}
 	if !(act == "deliver" || strings.Contains(act, "dup")) {
 		return
+	}
+	if ok && h.typ == 0 {
+		a.genuineOnItsWay = true
 	}
 	if ok && h.typ == 3 {
 		a.genuineRetryDelivered = true // an intact genuine Retry is under way: the client accepts it, later ones are void
@@ -480,7 +489,7 @@ func runOneHS(c hsCase) (fails []monFail, info string) {
 			att.dcidsPerAttempt, att.seenAttempt, att.srvSCIDs = map[string]map[string]bool{}, map[string]bool{}, map[string]bool{}
 			att.cliSCID, att.curDCID, att.firstDCID, att.srvSCID = nil, nil, nil, nil
 			att.armed = true
-			att.genuineRetryDelivered, att.vnCorrupted = false, false
+			att.genuineRetryDelivered, att.vnCorrupted, att.genuineOnItsWay = false, false, false
 			att.mu.Unlock()
 		}
 		defer closeLn()
@@ -489,6 +498,10 @@ func runOneHS(c hsCase) (fails []monFail, info string) {
 		defer cancel()
 		ach := make(chan acc, 1)
 		earlyData := []byte("early-data:" + strings.Repeat("z", 300))
+		earlyData2 := []byte("early-data-2:" + strings.Repeat("y", 2500))
+		resent := []byte("resent-after-rejection:" + strings.Repeat("r", 500))
+		var openEarly *quic.Stream
+		didResend := false
 		var srvStreams [][]byte
 		srvStreamsDone := make(chan struct{})
 		go func() {
@@ -552,6 +565,13 @@ func runOneHS(c hsCase) (fails []monFail, info string) {
 				}
 			}
 			earlyWriteErr = serr
+			if c.EarlyVar == 1 {
+				if s2, err2 := cc.OpenStream(); err2 == nil {
+					if _, err2 = s2.Write(earlyData2); err2 == nil {
+						openEarly = s2
+					}
+				}
+			}
 			select {
 			case <-cc.HandshakeComplete():
 				// an early connection reports failure through its context; a connection that was destroyed
@@ -583,6 +603,27 @@ func runOneHS(c hsCase) (fails []monFail, info string) {
 				res.dialErr = ctx.Err()
 			}
 			res.dialTime = time.Since(t0)
+			if res.dialErr == nil {
+				rejected := !cc.ConnectionState().Used0RTT
+				if openEarly != nil {
+					openEarly.Close() // accepted: completes the stream; rejected: the stream is gone
+				}
+				if rejected && c.EarlyVar == 2 {
+					// the documented way on: take the connection over and send again, as 1-RTT data
+					if nc, nerr := cc.NextConnection(ctx); nerr == nil {
+						cc = nc
+						if s3, err3 := cc.OpenStream(); err3 == nil {
+							if _, err3 = s3.Write(resent); err3 == nil && s3.Close() == nil {
+								didResend = true
+							}
+						} else {
+							fail("simhandshake/0rtt-next", "OpenStream on NextConnection after a rejection: "+err3.Error())
+						}
+					} else {
+						fail("simhandshake/0rtt-next", "NextConnection after a rejection: "+nerr.Error())
+					}
+				}
+			}
 		}
 		var a acc
 		if res.dialErr == nil {
@@ -649,13 +690,32 @@ func runOneHS(c hsCase) (fails []monFail, info string) {
 			res.srvEarlyData = srvStreams
 			mu.Unlock()
 			if res.dialErr == nil && a.conn != nil {
-				n := 0
+				n, n2, nr := 0, 0, 0
 				for _, b := range srvStreams {
-					if bytes.Equal(b, earlyData) {
+					switch {
+					case bytes.Equal(b, earlyData):
 						n++
-					} else {
-						fail("simhandshake/0rtt-data", fmt.Sprintf("server application read %d bytes that are not the early data", len(b)))
+					case bytes.Equal(b, earlyData2):
+						n2++
+					case bytes.Equal(b, resent):
+						nr++
+					default:
+						fail("simhandshake/0rtt-data", fmt.Sprintf("server application read %d bytes that no stream of the client carried (%q...)", len(b), b[:min(len(b), 24)]))
 					}
+				}
+				if c.EarlyVar == 1 {
+					switch {
+					case res.used0RTT[0] && res.used0RTT[1] && n2 != 1:
+						fail("simhandshake/0rtt-once", fmt.Sprintf("0-RTT accepted: the second early stream was delivered %d times", n2))
+					case !res.used0RTT[0] && !res.used0RTT[1] && c.Mode == "0rtt-reject" && n2 != 0:
+						fail("simhandshake/0rtt-rejected-delivered", fmt.Sprintf("0-RTT rejected but the second early stream reached the server application %d times", n2))
+					}
+				}
+				if didResend && nr != 1 {
+					fail("simhandshake/0rtt-resend", fmt.Sprintf("data sent on NextConnection after the rejection was delivered %d times", nr))
+				}
+				if !didResend && nr != 0 {
+					fail("simhandshake/0rtt-data", "server read data the client never sent")
 				}
 				switch {
 				case res.used0RTT[0] && res.used0RTT[1]:
@@ -831,6 +891,10 @@ func hsScenarios() []hsCase {
 		for _, retry := range []bool{false, true} {
 			out = append(out, hsCase{Client: cl, Retry: retry, Mode: "0rtt"})
 			out = append(out, hsCase{Client: cl, Retry: retry, Mode: "0rtt-reject"})
+			for v := 1; v <= 2; v++ {
+				out = append(out, hsCase{Client: cl, Retry: retry, Mode: "0rtt", EarlyVar: v})
+				out = append(out, hsCase{Client: cl, Retry: retry, Mode: "0rtt-reject", EarlyVar: v})
+			}
 		}
 	}
 	return out
@@ -946,6 +1010,11 @@ func runSimHandshakeCases(w *bufio.Writer, seed uint64, n int, args []string) {
 	for i := 0; i < 6; i++ {
 		cases = append(cases, hsCase{Client: []string{"plain", "Chrome_115_IPv4", "unil"}[i%3], EchoDCID: true, LongChain: i >= 3,
 			Inj: &hsInj{1, 1 + i%2, []int{injRetryGood, injRetryGoodCur}[i%2]}})
+	}
+	// 0-RTT with a slow server: the decision arrives after the client's PTO has re-sent early data
+	for i := 0; i < 12; i++ {
+		cases = append(cases, hsCase{Client: []string{"plain", "unil"}[i%2], Mode: []string{"0rtt", "0rtt-reject"}[(i/2)%2], EarlyVar: i / 4,
+			Faults: []fault{{Dir: 1, Idx: 0, Kind: fDelay, Arg: 700}, {Dir: 1, Idx: 1, Kind: fDelay, Arg: 700}}})
 	}
 	thorough := os.Getenv("VERIF_TIER") == "thorough"
 	if thorough {
